@@ -2,8 +2,8 @@
 # tools/try_dev.sh <patch.diff|-> <props-comma>   apply a patch to the dev worktree (/var/tmp/dev/repo, its own fact cache), sweep the
 # given properties, undo.  "-" = no patch (clean dev tree).  Development aid only; stored seeded changes are evaluated against /repo
 # itself by tools/try_seeded.py.  Create the worktree with: git -C /repo worktree add --detach /var/tmp/dev/repo HEAD
-D=/var/tmp/dev/repo
-export CHALK_VERIF_CACHE=/var/tmp/dev/cache
+D=${DEVROOT:-/var/tmp/dev}/repo
+export CHALK_VERIF_CACHE=${DEVROOT:-/var/tmp/dev}/cache
 git -C $D checkout -q -- . ; git -C $D clean -fdq
 if [ "$1" != "-" ]; then git -C $D apply "$1" || exit 2; fi
 cd /verif && ./check "$2" --no-evidence --repo $D 2>&1 | grep -E "FIRED|Traceback|Error|FAILED"
